@@ -60,6 +60,9 @@ MCPatternsOf(sd) ==
     [] sd.fam = "lf" -> {[sd EXCEPT !.pats = <<x>>] : x \in {ULit(SLF), UCat(ULit(SA), UCat(ULit(SLF), ULit(SB))), UAlt(ULit(SA), ULit(SLF)),
                                                               UCls({SA, SLF}, FALSE), UCat(ULit(SA), URep(ULit(SLF), 0, 1, TRUE)), UCls({SA}, TRUE),
                                                               UCat(URep(UCls({SA}, TRUE), 1, Inf, TRUE), ULit(SB)), ULit(SCR), UCat(ULit(SA), ULit(SCR))}}
+                         \* the same as fixed strings (-F): a literal holding the terminator must be rejected, not searched for
+                         \cup {[sd EXCEPT !.pats = <<LitCat(s)>>, !.fixed = TRUE] :
+                                 s \in {<<SA, SLF, SB>>, <<SLF>>, <<SA, SLF>>, <<SA, SCR, SB>>, <<SA, SNUL, SB>>, <<SDOT, SLF>>}}
     [] sd.fam = "inner" -> {[sd EXCEPT !.pats = <<UCat(x, UCat(y, z))>>] :
                               x \in {WPlus, URep(UDot, 0, Inf, TRUE), URep(UCls({SA, SB}, FALSE), 1, Inf, TRUE), ULook("wb"), UCat(WPlus, ULit(SB))},
                               y \in {UCat(ULit(SA), ULit(SB)), UGrp(UAlt(UCat(ULit(SA), ULit(SB)), ULit(SUA)), TRUE), UCat(ULit(SEA), ULit(SA)),
